@@ -95,8 +95,8 @@ static RefLP *catalogue (int idx, char *label, size_t ll)
 /* ------------------------------------------------------------ transformations */
 /* value relation: v_f = vs * v_0 + vo */
 typedef struct { RefLP *L; mpq_t vs, vo; } Form;
-enum { T_ROWREV, T_ROWROT, T_ROWSWAP, T_COLREV, T_COLROT, T_COLSWAP, T_ROWx2, T_ROWx13, T_ROWNEG, T_ROWNEGLAST, T_COLx2, T_COLx13, T_COLSHIFT1, T_COLSHIFTNEG, T_NEGOBJ, T_DUPROW, T_REDUNDANT, T_SPLITEQ, T_COLx2LAST, T_ROWx13LAST, T__COUNT };
-static const char *tname[T__COUNT] = { "reverse rows", "rotate rows", "swap rows 0,1", "reverse columns", "rotate columns", "swap columns 0,1", "row0 x 2", "row0 x 1/3", "row0 x -1 (sense flipped)", "last row x -1 (sense flipped)", "column0 scaled by 2", "column0 scaled by 1/3", "column0 shifted by +1", "last column shifted by -5/2", "negate objective, flip min/max", "duplicate row 0", "add redundant sum of two <=-rows", "split first equality", "last column scaled by 2", "last row x 1/3" };
+enum { T_ROWREV, T_ROWROT, T_ROWSWAP, T_COLREV, T_COLROT, T_COLSWAP, T_ROWx2, T_ROWx13, T_ROWNEG, T_ROWNEGLAST, T_COLx2, T_COLx13, T_COLSHIFT1, T_COLSHIFTNEG, T_NEGOBJ, T_DUPROW, T_REDUNDANT, T_SPLITEQ, T_COLx2LAST, T_ROWx13LAST, T_COLNEG0, T_COLNEGALL, T__COUNT };
+static const char *tname[T__COUNT] = { "reverse rows", "rotate rows", "swap rows 0,1", "reverse columns", "rotate columns", "swap columns 0,1", "row0 x 2", "row0 x 1/3", "row0 x -1 (sense flipped)", "last row x -1 (sense flipped)", "column0 scaled by 2", "column0 scaled by 1/3", "column0 shifted by +1", "last column shifted by -5/2", "negate objective, flip min/max", "duplicate row 0", "add redundant sum of two <=-rows", "split first equality", "last column scaled by 2", "last row x 1/3", "column0 negated (x = -x', bounds mirrored)", "all columns negated" };
 
 static void perm_rows (RefLP * L, const int *src)   /* new row i = old row src[i] */
 {
@@ -137,6 +137,15 @@ static void scale_col (RefLP * L, int c, const mpq_t k)   /* x = k x', k > 0 */
 	if (!L->loinf[c]) mpq_div (L->lo[c], L->lo[c], k);
 	if (!L->upinf[c]) mpq_div (L->up[c], L->up[c], k);
 }
+static void neg_col (RefLP * L, int c)   /* x = -x': [lo,up] becomes [-up,-lo] */
+{
+	for (int r = 0; r < L->m; r++) mpq_neg (REF_A (L, r, c), REF_A (L, r, c));
+	mpq_neg (L->obj[c], L->obj[c]);
+	mpq_t t; mpq_init (t);
+	mpq_set (t, L->lo[c]); mpq_neg (L->lo[c], L->up[c]); mpq_neg (L->up[c], t);
+	int li = L->loinf[c]; L->loinf[c] = L->upinf[c]; L->upinf[c] = li;
+	mpq_clear (t);
+}
 static void shift_col (Form * F, int c, const mpq_t d)    /* x = x' + d */
 {
 	RefLP *L = F->L; mpq_t t; mpq_init (t);
@@ -169,6 +178,8 @@ static int transform (Form * F, int t)
 	case T_COLx2: if (!n) { rv = 1; break; } mpq_set_si (k, 2, 1); scale_col (L, 0, k); break;
 	case T_COLx13: if (!n) { rv = 1; break; } mpq_set_si (k, 1, 3); scale_col (L, 0, k); break;
 	case T_COLx2LAST: if (n < 2) { rv = 1; break; } mpq_set_si (k, 2, 1); scale_col (L, n - 1, k); break;
+	case T_COLNEG0: if (!n) { rv = 1; break; } neg_col (L, 0); break;
+	case T_COLNEGALL: if (n < 2) { rv = 1; break; } for (int c = 0; c < n; c++) neg_col (L, c); break;
 	case T_COLSHIFT1: if (!n) { rv = 1; break; } mpq_set_si (k, 1, 1); shift_col (F, 0, k); break;
 	case T_COLSHIFTNEG: if (n < 2) { rv = 1; break; } mpq_set_si (k, -5, 2); shift_col (F, n - 1, k); break;
 	case T_NEGOBJ: for (int c = 0; c < n; c++) mpq_neg (L->obj[c], L->obj[c]); L->objsense = -L->objsense; mpq_neg (F->vs, F->vs); mpq_neg (F->vo, F->vo); break;
@@ -204,7 +215,7 @@ static int transform (Form * F, int t)
 }
 
 /* ------------------------------------------------------------ family */
-static int use_cat, depth2, maxcat;
+static int use_cat, depth2, maxcat, o_algo = DUAL_SIMPLEX;
 static void meta_init (void)
 {
 	const char *fam = opt_str ("fam", "S0q");
@@ -212,6 +223,7 @@ static void meta_init (void)
 	if (!use_cat) lpfam_select (fam);
 	depth2 = (int) opt_int ("depth", 1) >= 2;
 	maxcat = (int) opt_int ("ncat", NCAT);
+	o_algo = !strcmp (opt_str ("algo", "dual"), "primal") ? PRIMAL_SIMPLEX : DUAL_SIMPLEX;
 	qsx_start ();
 }
 static long meta_count (void) { return (use_cat ? (long) maxcat : lpfam_count ()) * (T__COUNT + 1); }
@@ -222,7 +234,7 @@ static void solve_form (const RefLP * L, Ans * A)
 	mpq_QSprob p = qsx_build (L, ROUTE_LOAD, 0);
 	A->rval = -99; A->status = 0;
 	if (!p) return;
-	A->rval = QSexact_solver (p, NULL, NULL, NULL, DUAL_SIMPLEX, &A->status);
+	A->rval = QSexact_solver (p, NULL, NULL, NULL, o_algo, &A->status);
 	if (!A->rval && A->status == QS_LP_OPTIMAL) { if (mpq_QSget_objval (p, &A->val)) A->rval = -98; }
 	STAT ("executions");
 	{ char nm[48]; snprintf (nm, sizeof nm, "status_%s", A->rval ? "ERR" : status_name (A->status)); stat_dyn (nm, ""); }
